@@ -93,7 +93,10 @@ PROFILES.update({
                    fault_kinds=["crash"], p_nodelay_false=0.03, stop_fields=["max_num_trials_started", "max_num_trials_finished",
                                                                             "max_num_trials_completed", "max_num_evaluations", "max_wallclock_time"])),
             (2, _p(world="sim", kinds=[k for k in MF_SIM if k != "fifo_grid"], p_fault_free=0.7, fault_kinds=["crash"], p_ties=0.0,
-                   sim_fixed_seed=True, p_nodelay_false=0.03)), ],
+                   sim_fixed_seed=True, p_nodelay_false=0.03)),
+            # rank-based resource cap of PASHA needs several trials in its top rungs: larger runs
+            (1, _p(world="mem", kinds=["hb_pasha", "hb_pasha", "hb_promotion", "hb_rush_promotion"], p_fault_free=0.8, p_ties=0.0, max_trials=45,
+                   fault_kinds=["crash"], p_nodelay_false=0.0, stop_fields=["max_num_trials_started"])), ],
 })
 FRESH = {"C11": {"hashseed": "5"}}
 PROFILES["C16"] = [
